@@ -198,7 +198,9 @@ func (k *k2Sys) quiesce() []qsched.GoroutineInfo {
 }
 
 // close tears an instance down so that none of its goroutines survives into the next one.
-func (k *k2Sys) close() {
+// It returns false if that is impossible (e.g. the state lock was never released by its holder):
+// the process is then unfit for further instances and the caller retires it.
+func (k *k2Sys) close() bool {
 	k.s.Deactivate()
 	// teardown only: dissolve a deadlocked instance by draining the request channel, so that
 	// blocked senders return, release the state lock and every goroutine can exit
@@ -215,28 +217,33 @@ func (k *k2Sys) close() {
 			}
 		}
 	}()
-	for i := 0; i < 2000 && k.lifeOp != nil && !k.lifeOp.Done(); i++ {
+	ok := true
+	for i := 0; i < 20000 && k.lifeOp != nil && !k.lifeOp.Done(); i++ {
 		time.Sleep(100 * time.Microsecond)
 	}
-	if k.sk.Started() {
+	if k.lifeOp != nil && !k.lifeOp.Done() {
+		ok = false
+	}
+	if ok && k.sk.Started() {
 		done := make(chan struct{})
 		go func() { k.sk.Stop(); close(done) }()
 		select {
 		case <-done:
-		case <-time.After(5 * time.Second):
-			vk.Fatalf("teardown: keeper.Stop() did not return with all gates open and the channel drained")
+		case <-time.After(3 * time.Second):
+			ok = false
 		}
 	}
-	for i := 0; i < 5000 && k.inFlight() > 0; i++ {
+	for i := 0; ok && i < 20000 && k.inFlight() > 0; i++ {
 		time.Sleep(100 * time.Microsecond)
 	}
 	if k.inFlight() > 0 {
-		vk.Fatalf("teardown: %d calls still pending with all gates open and the channel drained", k.inFlight())
+		ok = false
 	}
 	close(drainDone)
 	drainWG.Wait()
 	k.sk.workerPool.Release()
 	VerifGate = nil
+	return ok
 }
 
 // ---------------------------------------------------------------- actions
